@@ -447,7 +447,7 @@ class FSA:
                 return subword + letter
             subword += letter
 
-        return subword
+        return None
 
 
     def follow_word(self, word, start_vertex=None):
